@@ -17,8 +17,11 @@ pub fn safe_math_post_080_optimization(source_unit: SourceUnit) -> HashSet<Loc> 
 pub fn safe_math_optimization(source_unit: SourceUnit, pre_080: bool) -> HashSet<Loc> {
     let mut optimization_locations: HashSet<Loc> = HashSet::new();
 
-    let solidity_version = utils::get_solidity_version_from_source_unit(source_unit.clone())
-        .expect("Could not extract solidity version from source unit");
+    let solidity_version = match utils::get_solidity_version_from_source_unit(source_unit.clone()) {
+        Some(version) => version,
+        //without a usable version pragma there is nothing to compare against
+        None => return optimization_locations,
+    };
 
     if (pre_080 && solidity_version.1 < 8) || (!pre_080 && solidity_version.1 >= 8) {
         //if using safe math
